@@ -32,8 +32,9 @@ ASSUMPTIONS = [
     'named after the input, which then wins) only accompanies the first two',
     'names: plain scheme inputs (a, y, c, z) keys (k, j, m); nested scheme inputs (a, aa, ka, data_a) keys (k, kk, k_a) - substrings / prefixes / suffixes of one another and of "data", never equal to each other, to data / expiry, or to a dictable attribute',
     'scalars, table values and defaults are None, ints, finite floats or strings (a callable default is a formula, lists/tuples would be spread over rows by dictable); defaults may also name an input that is not supplied (no effect)',
-    'defaults are passed explicitly (defaults = {...}); a function whose own keyword defaults act as join defaults is not used; if_none / output_is_input / include_inputs / col / renames keep their default values',
-    'f has one positional parameter per input and none called data or expiry; it returns a tuple of its arguments, its first argument, None, 0, "", False or a fresh []',
+    'defaults: an explicit dict (possibly {}) is the complete list of defaults whatever defaults f has in its signature; with defaults = None the keyword defaults of f\'s signature are the defaults '
+    '(perdictable docstring / argspec_defaults; join() itself has no f, there None means no defaults); every parameter of f is always supplied; if_none / output_is_input / include_inputs / col / renames keep their default values',
+    'f has one parameter per input (those with a signature default last) and none called data or expiry; it returns a tuple of its arguments, its first argument, None, 0, "", False or a fresh []',
     'for an empty key set only "None or a table without rows" is asserted (DESIGN section 3 rule 2)',
     'expiry sub-check: at least one table input has no default, so the key set is an intersection and is not widened by the (outer-joined) data / expiry tables',
     'expiry sub-check: expiries are assigned to previously computed keys only (quantifier); a key with a past expiry but no supplied value (pyg-base returns None for it without calling f) is not generated',
@@ -89,9 +90,14 @@ def _is_falsy_spec(v):
 
 # ----------------------------------------------------------------------------- the model (spec level: keys are identified by their spec)
 
-def model_keys(spec):
+def model_defaults(spec):
+    """the [name, value] pairs that act as defaults: the explicit dict when one is passed, the signature defaults of f when defaults = None"""
+    return spec['defaults'] if spec['defaults_form'] == 'dict' else spec.get('sigdefs', [])
+
+
+def model_keys(spec, defaults=None):
     """ordered list of key specs of the expected result (order = first appearance, NOT sorted), or None when all inputs are scalars"""
-    defaults = dict((n, v) for n, v in spec['defaults'])
+    defaults = dict((n, v) for n, v in (model_defaults(spec) if defaults is None else defaults))
     tables = [i for i in spec['inputs'] if i['kind'] == 'table']
     if not tables:
         return None
@@ -107,7 +113,7 @@ def model_keys(spec):
 
 def model_row(spec, key, built):
     """{input name: value} at `key`; built = {name: ('scalar', v) | ('table', {kid: v})}; returns (row, names of the inputs whose default was used)"""
-    defaults = dict((n, v) for n, v in spec['defaults'])
+    defaults = dict((n, v) for n, v in model_defaults(spec))
     row, used = {}, []
     kid = _kid(key)
     for i in spec['inputs']:
@@ -229,13 +235,22 @@ def _case(draw, tier, want):
     if absent:
         d = [ABSENT[scheme], draw(_val)]
         defaults = [d] + defaults if absent == 1 else defaults + [d]
+    # signature defaults of f (not for join(), which has no f): they count only when defaults = None is passed
+    sigdefs = []
+    if want != 'join':
+        for name in names:
+            if draw(st.sampled_from([0, 0, 1])) == 1:
+                sigdefs.append([name, draw(_val)])
+        if sigdefs and draw(st.sampled_from([0, 1, 0])) == 1:
+            defaults = []
+    form = 'dict' if defaults else draw(st.sampled_from(['none', 'dict']))
     spec = dict(on=on, on_form=draw(st.sampled_from(['list', 'str'])) if nk == 1 else 'list', scheme=scheme, size='large' if large else 'small',
-                inputs=inputs, defaults=defaults, defaults_form=draw(st.sampled_from(['dict', 'none'])) if not defaults else 'dict',
+                inputs=inputs, defaults=defaults, sigdefs=sigdefs, defaults_form=form,
                 positional=draw(st.booleans()), fret=draw(st.sampled_from(FRETS)), again=draw(st.booleans()))
     if want != 'expiry':
         return spec
     # ---- expiry: needs a table input without default (see ASSUMPTIONS)
-    dnames = set(d[0] for d in defaults)
+    dnames = set(d[0] for d in model_defaults(spec))
     if not any(i['kind'] == 'table' and i['name'] not in dnames for i in inputs):
         head = inputs[0]
         if head['kind'] == 'scalar':
@@ -244,6 +259,7 @@ def _case(draw, tier, want):
                 keys, vals = table_keys()
             inputs[0] = head = dict(name=head['name'], kind='table', keys=keys, vals=vals, valcol='self', extra=None, rev=False)
         spec['defaults'] = [d for d in defaults if d[0] != head['name']]
+        spec['sigdefs'] = [d for d in sigdefs if d[0] != head['name']]
     K = model_keys(spec)
     kinds = ['no', 'absent', 'none', 'past', 'past', 'future']
     prev = []
@@ -279,7 +295,7 @@ def _case(draw, tier, want):
 def _norm(spec):
     """replay files written before the generalisation pass lack the newer fields: fill in the values they implied"""
     spec = dict(spec)
-    for k, v in (('scheme', 'plain'), ('size', 'small'), ('positional', False), ('fret', 'tuple'), ('again', False), ('prev_first', False)):
+    for k, v in (('sigdefs', []), ('scheme', 'plain'), ('size', 'small'), ('positional', False), ('fret', 'tuple'), ('again', False), ('prev_first', False)):
         spec.setdefault(k, v)
     spec['inputs'] = [dict(i, extra='junk' if i.get('extra') is True else (i.get('extra') or None)) if i['kind'] == 'table' else i for i in spec['inputs']]
     return spec
@@ -323,7 +339,10 @@ def _build(spec):
     defaults = {}
     for n, v in spec['defaults']:
         defaults[n] = build(v, env)
-        built['default:' + n] = defaults[n]
+    sig = dict((n, build(v, env)) for n, v in spec['sigdefs'])
+    built['sigdefs'] = sig
+    for n, v in (defaults if spec['defaults_form'] == 'dict' else sig).items():
+        built['default:' + n] = v
     return env, inputs, built, defaults
 
 
@@ -335,11 +354,20 @@ def _fvalue(fret, names, kw):
     return {'none': None, 'zero': 0, 'empty_str': '', 'false': False, 'empty_list': []}[fret]
 
 
-def _mkf(names, log, fret):
+def _mkf(names, log, fret, sig=None):
+    """f(<names without signature default>, <names with one> = value): records its keyword arguments"""
+    sig = sig or {}
+
     def _rec(**kw):
         log.append(kw)
         return _fvalue(fret, names, kw)
-    return eval('lambda %s: _rec(%s)' % (', '.join(names), ', '.join('%s = %s' % (n, n) for n in names)), {'_rec': _rec})
+    env = {'_rec': _rec}
+    params = [n for n in names if n not in sig]
+    for n in names:
+        if n in sig:
+            env['_sig_' + n] = sig[n]
+            params.append('%s = _sig_%s' % (n, n))
+    return eval('lambda %s: _rec(%s)' % (', '.join(params), ', '.join('%s = %s' % (n, n) for n in names)), env)
 
 
 def _cellcmp(a, b):
@@ -394,7 +422,8 @@ def _same(a, b):
 
 
 def _what(fn, spec, inputs, defaults, more=''):
-    return '%s(on = %r, defaults = %s)(%s%s)' % (fn, _on_arg(spec), short(defaults, 80), ', '.join('%s = %s' % (n, short(dict(v) if hasattr(v, 'keys') else v, 120)) for n, v in inputs.items()), more)
+    sig = ', f has the signature defaults %s' % dict((n, v) for n, v in spec['sigdefs']) if spec['sigdefs'] and fn != 'join' else ''
+    return '%s(on = %r, defaults = %s%s)(%s%s)' % (fn, _on_arg(spec), short(defaults, 80) if spec['defaults_form'] == 'dict' else None, sig, ', '.join('%s = %s' % (n, short(dict(v) if hasattr(v, 'keys') else v, 120)) for n, v in inputs.items()), more)
 
 
 def _on_arg(spec):
@@ -432,7 +461,19 @@ def _classes(spec, K, built, used_names):
         cls.append('empty_table')
     if any(i['kind'] == 'table' and not i['keys'] for i in spec['inputs'][1:-1]):
         cls.append('empty_table_in_the_middle')
-    dn = [d[0] for d in spec['defaults']]
+    dn = [d[0] for d in model_defaults(spec)]
+    sn = [d[0] for d in spec['sigdefs']]
+    if sn:
+        cls.append('f_has_signature_defaults')
+        if spec['defaults_form'] == 'none':
+            cls.append('signature_defaults_are_the_defaults')
+        else:
+            cls.append('sigdefs+explicit_' + ('empty' if not spec['defaults'] else 'overlapping' if set(sn) & set(dn) else 'other_params'))
+            if any(t['name'] in sn and t['name'] not in dn for t in tables):
+                cls.append('signature_default_not_in_explicit_defaults')
+                both = model_keys(spec, list(spec['defaults']) + [d for d in spec['sigdefs'] if d[0] not in dn])
+                if both is not None and K is not None and sorted(_kid(k) for k in both) != sorted(_kid(k) for k in K):
+                    cls.append('ignored_signature_default_would_change_the_keys')
     if any(not t['keys'] and t['name'] in dn for t in tables):
         cls.append('empty_table_with_default')
     if any(len(t['keys']) == 1 for t in tables):
@@ -445,7 +486,7 @@ def _classes(spec, K, built, used_names):
         cls.append('falsy_key')
     if len(spec['on']) == 2 and any(len(set(_kid(k[0]) for k in t['keys'])) < len(t['keys']) for t in tables):
         cls.append('ties_in_first_key_column')
-    if spec['defaults']:
+    if dn:
         cls.append('has_defaults')
     innames = [i['name'] for i in spec['inputs']]
     if any(d not in innames for d in dn):
@@ -507,7 +548,9 @@ def _classes(spec, K, built, used_names):
         if used_names:
             cls.append('default_extends_keys')
             nt = True
-            dv = dict((n, v) for n, v in spec['defaults'])
+            dv = dict((n, v) for n, v in model_defaults(spec))
+            if spec['defaults_form'] == 'none':
+                cls.append('signature_default_fills_row')
             if any(_is_falsy_spec(dv[n]) for n in used_names):
                 cls.append('falsy_default_fills_row')
         for t in set(t['valcol'] + ('+' + t['extra'] if t['extra'] else '') for t in tables):
@@ -537,7 +580,7 @@ def run_perd(spec):
     names = [i['name'] for i in spec['inputs']]
     log = []
     fret = spec['fret']
-    f = _mkf(names, log, fret)
+    f = _mkf(names, log, fret, built['sigdefs'])
     dflt = None if spec['defaults_form'] == 'none' else dict(defaults)
     what0 = _what('perdictable', spec, inputs, defaults)
     if spec['positional']:
@@ -672,7 +715,7 @@ def run_expiry(spec):
         args = dict(inputs)
         args.update(extra)
     log = []
-    f = _mkf(names, log, fret)
+    f = _mkf(names, log, fret, built['sigdefs'])
     dflt = None if spec['defaults_form'] == 'none' else dict(defaults)
     what0 = _what('perdictable', spec, inputs, defaults, more)
     if spec['positional']:
@@ -768,7 +811,7 @@ class _SortKey(object):
 _RULE = ('1-4 inputs (plain names a, y, c, z or nested names a, aa, ka, data_a) in any order, each a scalar or a table with unique keys over 1-2 key columns (k, j, m or k, kk, k_a in any order; '
          'cells from an int / string / datetime / int+string / None+NaN+int+float+string universe of 3-6 values so that overlapping, disjoint and empty key sets all occur; tables also as re-orderings of one '
          'another, with equal ends and other middles, pre-sorted), ~8% large cases (int keys 0..250, 64/65/100/128/200 rows, one table up to 8x longer, cyclic values), value column named after '
-         'the input / "data" / sole other column plus look-alike extra columns, rows in arbitrary order; any subset of inputs with a default (also for absent inputs, any order, falsy values); on / defaults by keyword or position; '
+         'the input / "data" / sole other column plus look-alike extra columns, rows in arbitrary order; any subset of inputs with a default (also for absent inputs, any order, falsy values), f with signature defaults on any subset of its parameters combined with defaults = None (they are the defaults) or an explicit dict naming other / overlapping / no parameters (only the dict counts); on / defaults by keyword or position; '
          'f returns a tuple of its arguments, its first argument, None, 0, "", False or []; half of the cases are evaluated a second time after overwriting the first result. ')
 
 SUBS = [
@@ -783,12 +826,15 @@ SUBS = [
                                   'table_ends_in_order_middle_not': 0.02, 'names_nested': 0.3, 'f_returns_falsy': 0.25, 'f_returns=none': 0.04, 'second_call': 0.2,
                                   'rows_with_equal_args': 0.08, 'falsy_default_fills_row': 0.01, 'default_for_absent_input': 0.1, 'positional': 0.2,
                                   'one_row_table': 0.08, 'inputs=1': 0.08, 'inputs=4': 0.05, 'falsy_key': 0.2, 'ties_in_first_key_column': 0.15,
-                                  'defaults_in_other_order_than_inputs': 0.01, 'empty_table_in_the_middle': 0.002}),
+                                  'defaults_in_other_order_than_inputs': 0.01, 'empty_table_in_the_middle': 0.002,
+                                  'signature_default_not_in_explicit_defaults': 0.08, 'ignored_signature_default_would_change_the_keys': 0.03,
+                                  'signature_defaults_are_the_defaults': 0.05, 'signature_default_fills_row': 0.01, 'sigdefs+explicit_empty': 0.04,
+                                  'sigdefs+explicit_other_params': 0.03, 'sigdefs+explicit_overlapping': 0.02, 'valcol=self+data': 0.05}),
     Sub('join', lambda tier: _case(tier, 'join'), run_join, quick=3000, thorough=12000,
         rule=_RULE + 'join(inputs, on, defaults = ...) against the same key-set model: exact key set, ascending order, one column per input holding the table value / default / '
              'broadcast scalar. non-trivial as for perdictable',
-        floor=0.15, class_floors={'partial_overlap': 0.1, 'default_extends_keys': 0.03, 'empty_result': 0.03, 'on_not_alphabetical': 0.1, 'scalar_broadcast': 0.15,
-                                  'rows>=3': 0.2, 'large': 0.04, 'large_result>=64': 0.02, 'one_table_8x_longer': 0.008, 'same_keyset_other_order': 0.04,
+        floor=0.15, class_floors={'partial_overlap': 0.1, 'default_extends_keys': 0.02, 'empty_result': 0.03, 'on_not_alphabetical': 0.1, 'scalar_broadcast': 0.15,
+                                  'valcol=self+data': 0.05, 'rows>=3': 0.2, 'large': 0.04, 'large_result>=64': 0.02, 'one_table_8x_longer': 0.008, 'same_keyset_other_order': 0.04,
                                   'same_keyset_same_ends_other_order': 0.005, 'same_length_same_ends_other_keys': 0.005, 'table_presorted': 0.1, 'names_nested': 0.3,
                                   'second_call': 0.2, 'falsy_default_fills_row': 0.01, 'default_for_absent_input': 0.1, 'positional': 0.2, 'falsy_key': 0.2}),
     Sub('expiry', lambda tier: _case(tier, 'expiry'), run_expiry, quick=3000, thorough=12000,
@@ -800,7 +846,9 @@ SUBS = [
                                  'old=none/past': 0.04, 'old=none/future': 0.02, 'old=none/none': 0.02, 'old=none/absent': 0.02,
                                  'old=falsy/past': 0.04, 'old=falsy/future': 0.02, 'old=falsy/none': 0.02, 'old=falsy/absent': 0.02,
                                  'data_expiry_first_kwargs': 0.1, 'extreme_date': 0.08, 'first_row_past': 0.08, 'last_row_past': 0.08, 'all_rows_past': 0.03,
-                                 'f_returns_falsy_and_past_rows': 0.07, 'large': 0.04, 'large_result>=64': 0.02, 'second_call': 0.15, 'names_nested': 0.3}),
+                                 'f_returns_falsy_and_past_rows': 0.07, 'large': 0.04, 'large_result>=64': 0.02, 'second_call': 0.15, 'names_nested': 0.3,
+                                 'signature_default_not_in_explicit_defaults': 0.08, 'ignored_signature_default_would_change_the_keys': 0.03,
+                                 'signature_defaults_are_the_defaults': 0.04, 'signature_default_fills_row': 0.005}),
 ]
 for _s in SUBS:
     _s.qshards = 8
